@@ -24,7 +24,6 @@ import (
 	"google.golang.org/grpc/status"
 	"google.golang.org/protobuf/types/known/anypb"
 
-	"istio.io/istio/pilot/pkg/features"
 	istiogrpc "istio.io/istio/pilot/pkg/grpc"
 	"istio.io/istio/pkg/model"
 	"istio.io/istio/pkg/util/sets"
@@ -392,12 +391,10 @@ func ShouldRespond(w Watcher, id string, request *discovery.DiscoveryRequest) (b
 	// If there is mismatch in the nonce, that is a case of expired/stale nonce.
 	// A nonce becomes stale following a newer nonce being sent to Envoy.
 	// previousInfo.NonceSent can be empty if we previously had shouldRespond=true but didn't send any resources.
-	if request.ResponseNonce != previousInfo.NonceSent {
-		if features.EnableUnsafeAssertions && previousInfo.NonceSent == "" {
-			// Assert we do not end up in an invalid state
-			log.Fatalf("ADS:%s: REQ %s Expired nonce received %s, but we never sent any nonce", stype,
-				id, request.ResponseNonce)
-		}
+	// Nothing has then been sent since the client (re)subscribed, so the nonce it carries (from a response
+	// before that) cannot be stale with respect to anything newer: the request is the client's current
+	// subscription and is handled below like a request with a matching nonce.
+	if previousInfo.NonceSent != "" && request.ResponseNonce != previousInfo.NonceSent {
 		log.Debugf("ADS:%s: REQ %s Expired nonce received %s, sent %s", stype,
 			id, request.ResponseNonce, previousInfo.NonceSent)
 		ExpiredNonce.With(typeTag.Value(model.GetMetricType(request.TypeUrl))).Increment()
